@@ -46,9 +46,10 @@ func NewNode(t thrift.Type, src []byte) Node {
 		l: (len(src)),
 		v: rt.GetBytePtr(src),
 	}
-	if t == thrift.LIST || t == thrift.SET {
+	// the element types are read from the header only if the buffer holds them
+	if (t == thrift.LIST || t == thrift.SET) && ret.l >= 1 {
 		ret.et = *(*thrift.Type)(unsafe.Pointer(ret.v))
-	} else if t == thrift.MAP {
+	} else if t == thrift.MAP && ret.l >= 2 {
 		ret.kt = *(*thrift.Type)(unsafe.Pointer(ret.v))
 		ret.et = *(*thrift.Type)(rt.AddPtr(ret.v, uintptr(1)))
 	}
@@ -61,9 +62,9 @@ func (self Node) slice(s int, e int, t thrift.Type) Node {
 		l: (e - s),
 		v: rt.AddPtr(self.v, uintptr(s)),
 	}
-	if t == thrift.LIST || t == thrift.SET {
+	if (t == thrift.LIST || t == thrift.SET) && ret.l >= 1 {
 		ret.et = *(*thrift.Type)(unsafe.Pointer(ret.v))
-	} else if t == thrift.MAP {
+	} else if t == thrift.MAP && ret.l >= 2 {
 		ret.kt = *(*thrift.Type)(unsafe.Pointer(ret.v))
 		ret.et = *(*thrift.Type)(rt.AddPtr(ret.v, uintptr(1)))
 	}
@@ -555,6 +556,10 @@ func (self Node) Index(i int) (v Node) {
 	}
 
 	s, e = it.Next(UseNativeSkipForGet)
+	if it.Err != nil {
+		// the addressed element itself is cut: s/e don't delimit a value
+		return errNode(meta.ErrRead, "", it.Err)
+	}
 	v = self.slice(s, e, self.et)
 ret:
 	// it.Recycle()
